@@ -28,10 +28,14 @@ TWO32 = 1 << 32
 
 # ------------------------------------------------------------------------------------------ struct file
 def parse_structs(path):
+    return parse_struct_text(open(path, "rb").read())
+
+
+def parse_struct_text(text):
     """Independent reading of boot/sark.struct: {struct: (base, size, {field: (offset, unit bytes, count, kind)})};
     kind 'int' (little-endian unsigned of `unit` bytes) or 'str' (one string of `unit` bytes)."""
     out, name = {}, None
-    for line in open(path, "rb"):
+    for line in text.splitlines():
         t = line.split(b"#")[0].split()
         if len(t) == 3 and t[1] == b"=":
             if t[0] == b"name":
@@ -599,6 +603,8 @@ def gen_enumeration(rng, buffers, windows, border=(), rotate=()):
             lengths = sorted(n for n in lengths if n in keep)
         for am in range(4):
             for n in lengths:
+                if B in rotate and B not in border and (am - n) % 4 not in (0, 2):
+                    continue        # quick tier, big buffer: two of the four alignments per length (they rotate)
                 ws = windows if B not in rotate else [windows[(n + am) % len(windows)]]
                 for kind in (("read", "write") if B not in rotate else (("read", "write")[(n + am) % 2],)):
                     base = rand_base(rng, n + 4) + am
@@ -928,6 +934,121 @@ def gen_unrecoverable(rng, structs):
     return c
 
 
+def gen_seqwrap(rng):
+    """a long-lived connection: its 16-bit sequence counter wraps in the middle of a multi-packet write / read"""
+    B = rng.choice([4, 5, 16, 256])
+    n = rng.choice([2 * B + 3, 3 * B + 5, 6 * B])
+    base = rand_base(rng, n + 8) + rng.randrange(4)
+    p = rng.choice([0, 1, 17])
+    ops = [["write", p, base, ["pat", rng.randrange(1000), n]], ["read", p, base - min(base, 2), n + 5]]
+    return base_case(rng, B, rng.choice([1, 2, 8]), ops, tag="seqwrap", preset=True,
+                     advance_seq=65536 - rng.randint(1, max(2, n // B + 1)))
+
+
+def moved_struct_text(rng, text):
+    """the struct file with the sv struct at another base and the offsets of same-sized fields exchanged in both
+    structs (vcpu_base among them)"""
+    swaps = {}
+    for a, b in [("utmp0", "utmp1"), ("led0", "led1"), ("vcpu_base", "sys_heap"), ("random", "sysram_heap"),
+                 ("status_map", "p2v_map"), ("user0", "user3"), ("user1", "r5"), ("sw_line", "time"),
+                 ("rt_code", "cpu_state"), ("p2p_dims", "dbg_addr")]:
+        if rng.random() < 0.7 or a == "vcpu_base":
+            swaps[a], swaps[b] = b, a
+    offs = {}
+    for line in text.splitlines():
+        t = line.split(b"#")[0].split()
+        if len(t) == 5:
+            offs[t[0].split(b"[")[0].decode()] = t[2]
+    out = []
+    for line in text.splitlines():
+        t = line.split(b"#")[0].split()
+        if len(t) == 5 and t[0].split(b"[")[0].decode() in swaps:
+            t[2] = offs[swaps[t[0].split(b"[")[0].decode()]]
+            line = b"  ".join(t)
+        elif len(t) == 3 and t[0] == b"base" and t[2].lower() == b"0xf5007f00":
+            line = b"base = " + (b"0x%08x" % (0xf5007f00 - 0x100 * rng.randint(1, 8)))
+        out.append(line)
+    return b"\n".join(out) + b"\n"
+
+
+def gen_rebooted(rng, default_text):
+    """controller created with the default struct file, then boot() with a struct file whose fields have moved:
+    struct-field and per-core field accesses must follow the new file (memory laid out accordingly)"""
+    text = moved_struct_text(rng, default_text)
+    st = parse_struct_text(text)
+    B = rng.choice([4, 16, 256])
+    c = base_case(rng, B, rng.choice([1, 2, 8]), [], tag="rebooted", preset=True, nomodel=True)
+    c["struct_text"] = text.decode("latin-1")
+    vb = 0x67800000 + 4 * rng.randrange(1 << 16)
+    ops = []
+    for _ in range(rng.choice([3, 4, 5])):
+        k = rng.choice(["read_struct", "write_struct", "read_vcpu", "write_vcpu"])
+        p = rng.randint(0, 17)
+        if k in ("read_struct", "write_struct"):
+            f = rng.choice(["utmp0", "utmp1", "led0", "led1", "sys_heap", "random", "sysram_heap", "status_map", "p2v_map",
+                            "p2p_dims", "dbg_addr", "unix_time"])
+            off, unit, count, kind = st["sv"][2][f]
+            ops.append([k, 0, f] if k == "read_struct" else [k, 0, f, sv_value(rng, unit, count)])
+        else:
+            f = rng.choice(["user0", "user3", "user1", "r5", "sw_line", "time", "rt_code", "cpu_state", "app_name"])
+            unit = st["vcpu"][2][f][1]
+            ops.append([k, p, f] if k == "read_vcpu" else
+                       [k, p, f, rng.choice(FITTING_NAMES) if f == "app_name" else rng.randrange(1 << (8 * unit))])
+    cores = sorted(set(o[1] for o in ops if o[0] in ("read_vcpu", "write_vcpu")))
+    c["over"] = vcpu_over(rng, c["chip"], st, vb, cores)
+    c["ops"] = ops
+    return c
+
+
+def gen_contexts(rng, structs):
+    """x, y, p come from kept Context objects entered again under different enclosing blocks; the bytes must land on /
+    come from the chip (and go through the core) lexically addressed: the innermost entered context that names it"""
+    B = rng.choice([4, 16, 256])
+    dims = [8, 8]
+    chips = []
+    while len(chips) < 3:
+        xy = rand_chip(rng, dims)
+        if xy not in chips:
+            chips.append(xy)
+    defs = [dict(x=xy[0], y=xy[1]) for xy in chips] + [dict(p=2), dict(p=rng.randint(3, 17)),
+                                                       dict(x=chips[0][0], y=chips[0][1], p=1)]
+    P = [3, 4]
+    patterns = [[[0, 3], [1, 3], [2, 3]], [[0, 3], [1, 4], [0, 4], [1, 3]], [[0, 1, 3], [1, 0, 3], [2, 3]],
+                [[5], [1, 3], [5, 1], [1, 5]], [[3, 0], [3, 1], [4, 2]], [[0, 3], [1, 3, 4], [2, 4, 3]]]
+    enter = rng.choice(patterns)
+    ops, where = [], []
+    for ent in enter:
+        x = y = None
+        p = None
+        for j in ent:
+            d = defs[j]
+            if "x" in d:
+                x, y = d["x"], d["y"]
+            if "p" in d:
+                p = d["p"]
+        k = rng.choice(["read", "write", "write", "fill", "read_struct", "write_struct"])
+        n = rng.randint(1, 2 * B + 3)
+        a = rand_base(rng, n + 8) + rng.randrange(4)
+        if k == "read":
+            ops.append([k, p, a, n])
+        elif k == "write":
+            ops.append([k, p, a, ["pat", rng.randrange(1000), n]])
+        elif k == "fill":
+            size = rng.randint(1, 40)
+            aligned = not (size % 4 or a % 4)
+            ops.append([k, p, a, rng.randrange(TWO32) if aligned else rng.randrange(256), size])
+        elif k == "read_struct":
+            ops.append([k, p, rng.choice(sorted(structs["sv"][2]))])
+        else:
+            f = rng.choice(sorted(structs["sv"][2]))
+            off, unit, count, kind = structs["sv"][2][f]
+            ops.append([k, p, f, sv_value(rng, unit, count)])
+        where.append([x, y])
+    c = base_case(rng, B, rng.choice([1, 2, 8]), ops, tag="contexts", dims=dims, preset=True)
+    c["ctx_defs"], c["enter"], c["chips"], c["chip"] = defs, enter, where, where[0]
+    return c
+
+
 def gen_malformed(rng):
     B = rng.choice([4, 16, 256])
     pool = [
@@ -1017,6 +1138,10 @@ def run(chk, args):
         singles += [gen_history(rng, structs, faulted=(i % 4 == 3)) for i in range(240 if quick else 3000)]
         singles += [gen_bigbuffer(rng, B) for B in [999, 1000, 1024, 2000] for _ in range(4 if quick else 40)]
         singles += [gen_discover(rng, structs) for _ in range(160 if quick else 2000)]
+        default_text = open(os.path.join(lib.REPO, "rig", "boot", "sark.struct"), "rb").read()
+        singles += [gen_seqwrap(rng) for _ in range(24 if quick else 300)]
+        singles += [gen_rebooted(rng, default_text) for _ in range(60 if quick else 600)]
+        singles += [gen_contexts(rng, structs) for _ in range(120 if quick else 1500)]
         singles += [gen_bigfill(rng, k) for k in range(10 if quick else 60)]
         singles += gen_names(rng, structs)
         singles += [gen_unrecoverable(rng, structs) for _ in range(200 if quick else 3000)]
@@ -1077,9 +1202,10 @@ def run(chk, args):
                     chk.oblige("environment:discovery", False, "discover_connections found %r on the simulated "
                                "three-board machine" % (res[0]["discovered"],))
             mem = Mem(c)
+            cstructs = parse_struct_text(c["struct_text"].encode("latin-1")) if c.get("struct_text") else structs
             for i, (op, r) in enumerate(zip(c["ops"], res)):
                 chk.count("outcome:" + (r["outcome"][0] if r["outcome"][0] != "exc" else r["outcome"][1]))
-                verdicts = oracle(c, op, r, mem, structs, op_chip(c, i))
+                verdicts = oracle(c, op, r, mem, cstructs, op_chip(c, i))
                 for key, what in verdicts:
                     if key not in seen_keys or len(chk.failing) < 10:
                         chk.fail_input(key, what, dict(case=c, op=op, observed=dict(outcome=r["outcome"], trace=r["trace"][:12])))
@@ -1099,6 +1225,8 @@ def run(chk, args):
                 c = g[0]
                 if results[id(c)] in (["hang"], ["skipped"]) and c["kind"] != "nonterm":
                     continue
+                if c.get("nomodel"):         # booted with another struct file: outside the model (oracle + trace validator)
+                    continue
                 ps = probe_windows(c, structs)
                 full = bool(c.get("plan"))
                 exprs.append(coq_case(c, structs, ps, full))
@@ -1112,11 +1240,12 @@ def run(chk, args):
                         continue
                     k += 1
                     big = sum(len(t[7]) + len(t[9]) for r in res for t in r["trace"]) // 2
-                    if c.get("tag") == "enum" and not (big <= 80 and k % 3 == 0 or k % 97 == 0):
+                    if c.get("tag") == "enum" and not (big <= 80 and k % 5 == 0 or k % 97 == 0):
                         continue
                     if c.get("tag") == "sampled" and k % 50:
                         continue
-                    ps = probe_windows(c, structs)
+                    ps = probe_windows(c, parse_struct_text(c["struct_text"].encode("latin-1"))
+                                       if c.get("struct_text") else structs)
                     e = coq_trace(c, res, ps)
                     if e is not None:
                         exprs.append(e)
@@ -1165,7 +1294,7 @@ def run(chk, args):
         except RuntimeError as e:
             chk.oblige("correspondence:model-evaluates", False, str(e))
     chk.coverage["rule"] = (
-        "enumeration: every (address mod 4, length 0..3*buffer+5) x {read, write} x window {1,2,8} for each buffer size "
+        "enumeration: every (address mod 4, length 0..3*buffer+5) x {read, write} x window {1,2,8} for each small buffer size (quick tier, buffer 256: every length at two rotating alignments, read / write and window alternating; 243 / 248: lengths around the chunk borders) "
         "(random word-aligned base incl. both ends of the 32-bit space, random chip/core, controller or connection layer); "
         "every sv field read / written; every vcpu field on 3 cores; fills (sizes 0..40 + large, 4 alignments, both "
         "branches); link reads/writes (lengths 0..3*word+8); random faulted runs (request lost, reply lost, delayed, "
@@ -1178,7 +1307,10 @@ def run(chk, args):
         "only when one datagram really was transmitted n_tries times); word fills of 64 KiB .. 5 MiB (sizes around and between "
         "whole MiB; the simulator and the oracle keep them as intervals); every application name whose utf-8 encoding "
         "fits the 16-byte field, non-ASCII included, written and read back (names that do not fit are in the malformed "
-        "stream); unrecoverable schedules (1-3 tries, 55% of the transmissions lost, 10% refused with a fatal return "
+        "stream); a connection whose 16-bit sequence counter wraps in the middle of a multi-packet write / read; a "
+        "controller re-booted with a struct file whose sv / vcpu fields have moved (oracle and trace validator only); "
+        "calls whose x, y, p come from kept Context objects entered again under other enclosing contexts; "
+        "unrecoverable schedules (1-3 tries, 55% of the transmissions lost, 10% refused with a fatal return "
         "code): the call may raise, a normal return must still be exact. "
         "Non-trivial = valid case with >= 2 commands, or a non-word command, or a fill/link command, or a faulted run; "
         "distinct by hash of (buffer, window, initial memory, chip, calls, fault plan)")
